@@ -25,8 +25,9 @@ structure St where
   known : List Path      -- every path mentioned so far
   saveNo : Nat
   ok : Bool
+  fdsSeen : List Nat := []   -- every descriptor number seen in the block (some may still be open)
 
-def St.init : St := ⟨FS.empty, [], [], 0, false⟩
+def St.init : St := ⟨FS.empty, [], [], 0, false, []⟩
 
 def parseNat (s : String) : Option Nat := s.toNat?
 
@@ -145,13 +146,15 @@ oracle values (temp names, descriptors, chunking) out of it, rebuild the
 program from them and return it.  `probe` (an input: the harness chose where
 TMPDIR points and whether the destination directory accepts new entries) fixes
 the shape of the start. -/
-def instanceOf (dest : Path) (probe : String) (commit : Bool) (nExtra : Nat) (evs : List Sys) :
-    Option (List Sys) :=
+def instanceOf (dest : Path) (probe : String) (commit : Bool) (nExtra : Nat) (leak : Bool)
+    (evs : List Sys) : Option (List Sys) :=
   let body (pr : Probe) (tmp : Path) (fd : Nat) (rest : List Sys) : Option (List Sys) :=
     let ws := rest.takeWhile (fun e => match e with | .write _ _ => true | _ => false)
     let chunks := ws.filterMap (fun e => match e with | .write _ d => some d | _ => none)
     let sv : Save := { pr := pr, tmp := tmp, fd := fd, chunks := chunks, commit := commit }
-    let core := sv.prog dest
+    -- leak: `CloseReplace` failed at its fsync (injected EIO) and, as the filter
+    -- updater is written, nothing closes or removes the temporary file afterwards
+    let core := if leak then probeOps pr ++ [.creat tmp fd] ++ chunks.map (.write fd) else sv.prog dest
     let tail := evs.drop core.length
     let tailOK := tail.length == nExtra &&
       tail.all (fun e => match e with | .unlink p => p != dest | _ => false)
@@ -174,6 +177,30 @@ def instanceOf (dest : Path) (probe : String) (commit : Bool) (nExtra : Nat) (ev
       else if probe == "xdev" then body ⟨a, b, f1, f2, .otherMount⟩ tmp fd rest
       else none
     | _ => none
+
+/-- Closes of descriptors that were not opened in the window: a temporary file leaked by an earlier failed `CloseReplace`
+whose `*os.File` the Go garbage collector finalises at a time of its own.  They
+are replayed (and monitored) but are not part of the save's program. -/
+def splitStray (s : FS) : List Nat → List Sys → List Sys × List Sys
+  | _, [] => ([], [])
+  | opened, e :: es =>
+    match e with
+    | .close fd =>
+      if !opened.contains fd then
+        let (k, st) := splitStray s opened es
+        (k, e :: st)
+      else
+        let (k, st) := splitStray s (opened.erase fd) es
+        (e :: k, st)
+    | .creat _ fd =>
+      let (k, st) := splitStray s (fd :: opened) es
+      (e :: k, st)
+    | .openWr _ fd _ =>
+      let (k, st) := splitStray s (fd :: opened) es
+      (e :: k, st)
+    | _ =>
+      let (k, st) := splitStray s opened es
+      (e :: k, st)
 
 def whyName : Why → String
   | .visible => "C14.visible" | .crash => "C14.crash" | .final => "C14.final" | .reader => "C14.reader"
@@ -206,16 +233,18 @@ def stepSave (st : St) (ins impl : List String) : Option (St × String) := do
       let final := run st.fs evs
       -- model side
       -- "same+fsize=123": the part after '+' is a fault for the harness only
+      let leak := probe.endsWith "+leak"
       let probe := (probe.splitOn "+").headD probe
-      let modelProg := instanceOf st.dest probe expectCommit nExtra evs
+      let (own, stray) := splitStray st.fs [] evs
+      let modelProg := instanceOf st.dest probe expectCommit nExtra leak own
       let modelStr := match modelProg with
         | none => "no-instance"
         | some prog =>
-          let r := runAbort st.fs prog
+          let r := runAbort (run st.fs stray) prog
           "\t".intercalate [if expectCommit && r.2 then "1" else "0", showDir r.1 known, showEvents prog]
       let implStr := "\t".intercalate [if committed then "1" else "0",
-        "\t".intercalate (toString dirNames.length :: dirNames), showEvents evs]
-      let agree := modelStr == implStr && allAccepted st.fs evs
+        "\t".intercalate (toString dirNames.length :: dirNames), showEvents own]
+      let agree := modelStr == implStr && allAccepted (run st.fs stray) own
       let spec : Option String :=
         match check i o with
         | some w => some (whyName w)
@@ -223,7 +252,9 @@ def stepSave (st : St) (ins impl : List String) : Option (St × String) := do
           if committed && wrote != newLen then some "C14.length"
           else if !finalOK then some "C14.content"
           else none
-      pure ({ st with fs := compact final st.dest (2305843009213693952 + saveNo) known (1000000 :: fdsOf evs), known := dedup known, saveNo := saveNo },
+      let fdsSeen := (st.fdsSeen ++ 1000000 :: fdsOf evs).eraseDups
+      pure ({ st with fs := compact final st.dest (2305843009213693952 + saveNo) known fdsSeen,
+                      known := dedup known, saveNo := saveNo, fdsSeen := fdsSeen },
         verdict agree spec modelStr)
     | _ => none
   | _, _ => none
@@ -272,7 +303,7 @@ def stepRace (st : St) (ins impl : List String) : Option (St × String) := do
       let ok : Option Content → Bool := fun c => allowed.contains c
       let known := st.known ++ paths evs
       let final := run st.fs evs
-      let fdsSeen := 1000000 :: fdsOf evs
+      let fdsSeen := (st.fdsSeen ++ 1000000 :: fdsOf evs).eraseDups
       let good := goodTraceB st.dest fdsSeen st.fs evs && allAccepted st.fs evs
       let modelStr := "\t".intercalate [toString V.length, showDir final known, if good then "good" else "bad"]
       let implStr := "\t".intercalate [toString nCommitted,
@@ -286,7 +317,7 @@ def stepRace (st : St) (ins impl : List String) : Option (St × String) := do
           else if !finalOK then some "C14.content"
           else none
       pure ({ st with fs := compact final st.dest (2305843009213693952 + saveNo) known fdsSeen,
-                      known := dedup known, saveNo := saveNo },
+                      known := dedup known, saveNo := saveNo, fdsSeen := fdsSeen },
         verdict (modelStr == implStr) spec modelStr)
     | _ => none
   | _, _ => none
@@ -318,7 +349,7 @@ def stepReset (ins impl : List String) : Option (St × String) := do
     if files.length != (← parseNat n) then none
     let ps ← files.mapM hexDecode
     let fs := (ps.zipIdx).foldl (fun s (p, j) => putFile s p [j]) FS.empty
-    pure (⟨fs, dest, dedup (dest :: ps), 0, true⟩, verdict (impl == ["ok"]) none "ok")
+    pure (⟨fs, dest, dedup (dest :: ps), 0, true, []⟩, verdict (impl == ["ok"]) none "ok")
   | _ => none
 
 def step' (st : St) (line : String) : St × String :=
